@@ -489,6 +489,10 @@ func RunHostile(c *HostileCase) (out *vkit.Outcome) {
 	} else if lastAfter != "0004" {
 		o.Failf("", "Apply(%q) returned nil but LastOffset is %q", c.Data, lastAfter)
 	}
+	if err == nil && !json.Valid([]byte(c.Data)) {
+		o.Failf("", "Apply(%q) returned nil: the data is not a JSON document, so it cannot be applied (state %s -> %s, LastOffset %q -> %q)", c.Data, before, after, lastBefore, lastAfter)
+		return o
+	}
 	if json.Valid([]byte(c.Data)) && err != nil {
 		o.Nontrivial = true
 		o.Class("valid_json_rejected")
